@@ -540,8 +540,36 @@ pub fn run(out: &mut Out, tier: &str, seed: u64, prop: &str) {
             }
         }
         "C04" => {
+            let mk = |x: &Item| Item { term: x.term.clone(), tree: x.tree.clone(), dump: x.dump.clone() };
+            let mut pairs: Vec<(Item, Item)> = Vec::new();
+            // operands that touch in exactly one point, or are separated by one point: every ordered pair of
+            // comparisons against the same literal on the same key (version keys with inclusive bounds, string
+            // keys), bare and under / above other variables
+            {
+                let mut atoms: Vec<Vec<Term>> = Vec::new();
+                for k in [1usize, 2] { for lit in ["3.8", "3.8.1"] { atoms.push((0..6).map(|op| Term::V(k, op, lit.to_string())).collect()); } }
+                for k in [1usize, 12] { for lit in ["posix", ""] { atoms.push((0..6).map(|op| Term::S(k, op, lit.to_string())).collect()); } }
+                for group in &atoms {
+                    for (i, x) in group.iter().enumerate() {
+                        for (j, y) in group.iter().enumerate() {
+                            let variants: Vec<(Term, Term)> = vec![
+                                (x.clone(), y.clone()),
+                                (Term::and(x.clone(), Term::X(false, "dev".into())), Term::and(y.clone(), Term::S(0, 0, "nt".into()))),
+                                (Term::and(Term::V(0, 5, "3.7".into()), x.clone()), Term::and(Term::V(0, 2, "3.12".into()), Term::or(y.clone(), Term::X(true, "dev".into())))),
+                            ];
+                            for (vi, (ta, tb)) in variants.into_iter().enumerate() {
+                                if vi > 0 && (i + j) % 2 == 1 { continue; }
+                                let (Some(tra), Some(trb)) = (try_build(out, "C04", &ta), try_build(out, "C04", &tb)) else { return };
+                                let (da, db) = (dump(&tra), dump(&trb));
+                                pairs.push((Item { term: ta, tree: tra, dump: da }, Item { term: tb, tree: trb, dump: db }));
+                                out.stat("c04.boundary_pairs");
+                            }
+                        }
+                    }
+                }
+            }
             for _ in 0..n_ops {
-                let a = &items[rng.below(items.len())];
+                let a = mk(&items[rng.below(items.len())]);
                 // bias towards related operands
                 let b = match rng.below(4) {
                     0 => Item { term: Term::not(a.term.clone()), tree: a.tree.negate(), dump: dump(&a.tree.negate()) },
@@ -554,6 +582,9 @@ pub fn run(out: &mut Out, tier: &str, seed: u64, prop: &str) {
                     }
                     _ => { let c = &items[rng.below(items.len())]; Item { term: c.term.clone(), tree: c.tree.clone(), dump: c.dump.clone() } }
                 };
+                pairs.push((a, b));
+            }
+            for (a, b) in &pairs {
                 out.evaluations += 1;
                 let r = catch_unwind(AssertUnwindSafe(|| {
                     let d1 = a.tree.is_disjoint(&b.tree);
@@ -604,6 +635,11 @@ pub fn run(out: &mut Out, tier: &str, seed: u64, prop: &str) {
                     ("de morgan", Term::not(Term::and(t(a), t(b))), Term::or(Term::not(t(a)), Term::not(t(b)))),
                     ("double negation", Term::not(Term::not(t(a))), t(a)),
                     ("excluded middle", Term::or(t(a), Term::not(t(a))), Term::T),
+                    // requires-python surgery returns the canonical marker of the same function
+                    ("complexify is conjunction with the range (upper bound)", Term::Cp(Bd::U, Bd::E("3.12".into()), Box::new(t(a))), Term::and(t(a), range_term(&Bd::U, &Bd::E("3.12".into())))),
+                    ("complexify is conjunction with the range (both bounds)", Term::Cp(Bd::I("3.8".into()), Bd::I("3.11".into()), Box::new(t(a))), Term::and(t(a), range_term(&Bd::I("3.8".into()), &Bd::I("3.11".into())))),
+                    ("complexify is conjunction with the range (lower bound)", Term::Cp(Bd::E("3.9".into()), Bd::U, Box::new(t(a))), Term::and(t(a), range_term(&Bd::E("3.9".into()), &Bd::U))),
+                    ("complexify after simplify", Term::Cp(Bd::I("3.8".into()), Bd::E("3.13".into()), Box::new(Term::Sp(Bd::I("3.8".into()), Bd::E("3.13".into()), Box::new(t(a))))), Term::Cp(Bd::I("3.8".into()), Bd::E("3.13".into()), Box::new(t(a)))),
                 ];
                 // Ordering::Equal exactly for the same function: a marker against markers that share its root
                 // test (its negation, and its conjunction / disjunction with another marker)
@@ -819,6 +855,22 @@ pub fn run(out: &mut Out, tier: &str, seed: u64, prop: &str) {
                         shapes.push(Term::or(Term::S(key, 4, a.into()), Term::S(key, 2, a.into())));      // < a or > a
                         shapes.push(Term::and(Term::S(key, 1, a.into()), Term::S(key, 1, "b".into())));
                         shapes.push(Term::and(Term::S(key, 3, a.into()), Term::S(key, 5, "zz".into())));
+                    }
+                }
+                // (atom1 and guard) or atom2 for every pair of comparison operators against the SAME literal, with a
+                // guard on a later variable: the point `key == literal` may belong to neither / both clauses
+                for (vk, key) in [(true, 1usize), (true, 2), (false, 1), (false, 12)] {
+                    let lit = if vk { "3.8" } else { "posix" };
+                    let atom = |op: usize| if vk { Term::V(key, op, lit.to_string()) } else { Term::S(key, op, lit.to_string()) };
+                    let guards = [Term::X(false, "dev".into()), Term::S(12, 0, "x".into()), Term::S(12, 8, "x".into())];
+                    for op1 in 0..6 {
+                        for op2 in 0..6 {
+                            for (gi, g) in guards.iter().enumerate() {
+                                if gi > 0 && (op1 + op2) % 2 == 1 { continue; }
+                                shapes.push(Term::or(Term::and(atom(op1), g.clone()), atom(op2)));
+                                if gi == 0 { shapes.push(Term::and(atom(op1), Term::or(atom(op2), g.clone()))); }
+                            }
+                        }
                     }
                 }
                 // values containing a quote character under every string operator (8 = contains, 9 = not contains:
